@@ -83,6 +83,9 @@ def run(ck):
                 what.append("not-a-client-ca-v2-certificate")
             if any((a["subj"] == b2["subj"]) != (a["tok"] == b2["tok"]) for a in certs for b2 in certs):
                 what.append("token-not-unique-to-subject")
+            allc = certs + (o.get("elders") or [])
+            if "token-not-unique-to-subject" not in what and any((a["subj"] == b2["subj"]) != (a["tok"] == b2["tok"]) for a in allc for b2 in allc):
+                what.append("token-not-unique-to-subject:version-1-subjects")
             ck.violation("C32:issue:" + "+".join(what or ["count"]),
                          "issued certificates for keys %s: %s: CNs=%s" % (cc["keys"], ", ".join(what), [k2["cn"] for k2 in certs]), c)
     ck.traces += len(flat)
